@@ -17,14 +17,21 @@ RULE = ("codec: parameter dictionaries generated from one PRNG (unicode incl. as
         "= some line occurs both with and without payload and the stream is split.  handler: the same kind of history "
         "through a real machine (4 configurations: connection direction x logging of bcp_interface/bcp_client) to "
         "registered command callbacks and trigger events, plus events sent back to a registered client; non-trivial = a "
-        "payload reaches a handler.  pickle: 1-5 messages through BcpPickleClient under random splits")
+        "payload reaches a handler.  pickle: 1-5 messages through BcpPickleClient under random splits.  timed: 1-3 "
+        "connections (BcpServer-accepted, or the one MPF made) of a real machine, each carrying 1-5 messages (payloads up to "
+        "300 bytes) plus optionally a torn frame, cut at random points and at the header/payload boundary, the chunks of all "
+        "connections interleaved and delivered at generated instants (gaps 0..8 s on the virtual clock, 1/8 s grid), each "
+        "connection ended by EOF of the peer or by MPF dropping the transport; every case is run twice (generated gaps / zero "
+        "gaps); non-trivial = a payload frame stayed incomplete for >= 2 s after its header arrived, or a connection ended "
+        "inside a frame")
 TRUSTED_BASE = [
     "Coq 8.16.1 kernel (coqc), vm_compute for refutation witnesses and for evaluating the model in the correspondence run; no native_compute",
     "axioms: none (every Print Assumptions is 'Closed under the global context')",
     "hand-written model coq/C19/Model.v tied to /repo by correspondence: harness/props/c19.py runs "
     "encode_command_string/decode_command_string, send()/read_message()/_process_command of both socket clients, "
-    "BcpTransportManager._receive_loop + BcpInterface.process_bcp_message/bcp_trigger in a real machine, and "
-    "BcpPickleClient, and the model on the same inputs",
+    "BcpTransportManager._receive_loop + BcpInterface.process_bcp_message/bcp_trigger in a real machine (incl. BcpServer "
+    "accepting connections, EOF, unregister_transport, on the virtual clock with timed arrivals), and BcpPickleClient, and "
+    "the model on the same inputs",
     "CPython: str<->utf-8, str(int)/int(), str(float)/float(), json.loads (json.dumps is modelled: jdumps), pickle.dumps/loads "
     "(opaque byte strings), asyncio.StreamReader, logging",
     "urllib.parse quote/unquote/parse_qs/urlsplit/urlunparse are MODELLED (byte level) and validated on every run",
@@ -38,6 +45,12 @@ ASSUMPTIONS = [
     "(collisions with Python parameter names of the interface methods are outside C19)",
     "the interleaving of a command callback with the handler of an event posted by an earlier trigger command is not "
     "observed (dispatch = posting is in order; handling belongs to the event queue)",
+    "timed suite: the model is the code WITH fixes/C19-torn-frame-at-eof.patch (EOF inside a frame = EOF); on a tree without "
+    "it the cases in which a peer disconnects inside a frame reproduce the recorded findings torn-line-dispatched / "
+    "torn-payload-eof-raises and are not fed to the model",
+    "timed suite: instants on a 1/8 s grid of the virtual clock; delivery instant = instant of the callback; the same "
+    "transport object is never re-registered after it was dropped (MPF never does; read_message is not cancellation-safe "
+    "between header and payload, which matters only to a caller that cancels and re-enters it: seeded change m11)",
 ]
 
 # ------------------------------------------------------------------------------------------------
@@ -1682,13 +1695,521 @@ SUITES.append(
     Suite("rawline", gen_raw, run_raw, HDR_RAW, coq_raw, oracle_raw, shrink_raw,
           lambda c, o: "kw" in o and len(o["kw"]) >= 1, {"quick": 1000, "thorough": 40000}, shard=250))
 
-LEVEL_TEXT = ("Machine-checked proof (Coq, 29 theorems, no axioms) about a byte-level model of the BCP codec, both socket "
+# ------------------------------------------------------------------------------------------------
+# TIME and CONNECTION LIFE CYCLE.  Chunks arrive at generated instants (gaps 0 .. 8 s on the virtual clock, 1/8 s grid;
+# long stalls inside a line, between a '&bytes=N' header and its payload, inside the payload), on 1-3 connections whose
+# chunks interleave, through the real BcpServer / BcpTransportManager._receive_loop / BcpInterface of a real machine.
+# A connection ends by EOF of the peer or by MPF dropping the transport (read_message cancelled), possibly in the middle
+# of a frame.  Every case is run twice: with the generated gaps and with all gaps zero.
+TIMED_CMDS = ["vh_a", "vh_a", "vh_b", "vnope", "hello"]
+GAPS8 = [0, 0, 1, 1, 2, 4, 8, 12, 15, 16, 17, 24, 40, 64]
+
+
+def gen_timed(rng, tier, i):
+    server = rng.random() < 0.75
+    conns = []
+    ticks = []
+    for ci in range(rng.choice([1, 1, 2, 3]) if server else 1):
+        pool = []
+        while len(pool) < rng.randint(1, 3):
+            m = gen_msg(rng)
+            if m["cmd"] == "goodbye":
+                continue
+            pool.append({"cmd": rng.choice(TIMED_CMDS), "kw": [kv for kv in m["kw"] if kv[0] != "client"]})
+        pays = [None] + [rng.choice(PAYLOADS) for _ in range(2)] + \
+               [[rng.randrange(256) for _ in range(rng.choice([1, 5, 40, 300]))] for _ in range(2)]
+        msgs = []
+        for _ in range(rng.randint(1, 5)):
+            m = rng.choice(pool)
+            msgs.append({"cmd": m["cmd"], "kw": m["kw"], "payload": rng.choice(pays)})
+        torn = None
+        if server and rng.random() < 0.5:
+            m = rng.choice(pool)
+            torn = {"cmd": m["cmd"], "kw": m["kw"], "payload": rng.choice(pays), "keep1000": rng.randrange(1000)}
+        cuts = [["a", rng.randrange(0, 40 * len(msgs))] for _ in range(rng.choice([0, 1, 2, 4, 8]))]
+        for k, m in enumerate(msgs + ([torn] if torn else [])):
+            if m["payload"] and rng.random() < 0.7:
+                # a read ends around the end of the header line / inside the payload
+                cuts.append(rng.choice([["h", k, 0], ["h", k, 0], ["h", k, rng.randint(-3, 3)], ["p", k, rng.randrange(1000)]]))
+        conns.append({"msgs": msgs, "torn": torn, "cuts": cuts,
+                      "end": rng.choice(["eof", "eof", "drop"]) if server else "open"})
+        ticks += [ci] * (len(cuts) + 2)
+    rng.shuffle(ticks)
+    slow = rng.random() < 0.5
+    return {"server": server, "conns": conns,
+            "ticks": [[rng.choice(GAPS8) if slow or rng.random() < 0.3 else rng.choice([0, 1, 2]), ci] for ci in ticks]}
+
+
+_TR = {}
+
+
+def _timed_rig(server):
+    if server in _TR:
+        return _TR[server]
+    from rig import Rig
+    from mpf.tests.loop import MockQueueSocket, MockServer
+
+    class Sock(MockQueueSocket):
+        def send(self, data):
+            if data == b'reset\n':
+                self.recv_queue.append(b'reset_complete\n')
+                return len(data)
+            return super().send(data)
+
+    def mock_loop(r):
+        if server:
+            r.mock_server = MockServer(r.clock.loop)
+            r.clock.mock_server("127.0.0.1", 5051, r.mock_server)
+        else:
+            r.client_socket = Sock(r.loop)
+            r.clock.mock_socket("localhost", 5050, r.client_socket)
+
+    r = Rig({}, use_bcp=True, mock_loop=mock_loop, patches={"bcp": {"connections": []} if server else {"servers": []}})
+    if server:
+        del r.machine_config_patches["bcp"]
+        r.machine_config_patches["bcp"] = {"connections": []}
+    else:
+        r.machine_config_patches["bcp"] = {"servers": []}
+    r.start()
+    r._verif_sock = Sock
+    log = []
+
+    def mk(cmd):
+        async def handler(client, **kwargs):
+            log.append((client, cmd, kwargs, r.now()))
+        return handler
+    for cmd in REGISTERED + ["vh_sync"]:
+        r.machine.bcp.interface.register_command_callback(cmd, mk(cmd))
+    r.advance(1)
+    r._verif_log = log
+    r._verif_sync = 0
+    _TR[server] = r
+    return r
+
+
+def _settle(r):
+    """everything that can happen at this instant happens (no virtual time passes)"""
+    for _ in range(12):
+        r.advance(0)          # (the rig translates "loop stopped by the exception handler" into the exception itself)
+
+
+def _raise_pending(r):
+    """an exception that reached the loop's exception handler while the awaited future completed in the same iteration"""
+    ctx = r.exception()
+    if ctx:
+        r._exception = None
+        e = ctx.get("exception") if isinstance(ctx, dict) else None
+        raise e if isinstance(e, BaseException) else RuntimeError(str(ctx)[:200])
+
+
+def _open_conn(r, server):
+    if not server:
+        return r.client_socket, r.machine.bcp.transport.get_named_client("local_display")
+    sock = r._verif_sock(r.loop)
+    before = list(r.machine.bcp.transport.get_all_clients())
+    r.machine.clock.loop.run_until_complete(r.mock_server.add_client(sock))
+    _settle(r)
+    _drain_sock(sock)
+    new = [c for c in r.machine.bcp.transport.get_all_clients() if c not in before]
+    return sock, (new[0] if len(new) == 1 else None)
+
+
+def _drain_sock(sock):
+    while not sock.send_queue.empty():
+        sock.send_queue.get_nowait()
+
+
+def _timed_sync(r, server):
+    r._verif_sync += 1
+    del r._verif_log[:]
+    sock, client = _open_conn(r, server)
+    sock.recv_queue.append(("vh_sync?id=int:%d\n" % r._verif_sync).encode())
+    _settle(r)
+    ok = len(r._verif_log) == 1 and r._verif_log[0][1] == "vh_sync" and r._verif_log[0][2] == {"id": r._verif_sync} \
+        and r._verif_log[0][0] is client
+    del r._verif_log[:]
+    if server:
+        sock.recv_queue.append(b"")
+        _settle(r)
+        ok = ok and client not in r.machine.bcp.transport.get_all_clients()
+    return ok
+
+
+def _resolve_cuts(layout, cuts, total):
+    res = set()
+    for c in cuts:
+        if c[0] == "a":
+            pos = c[1]
+        elif c[1] >= len(layout):
+            continue
+        else:
+            start, hdr_end, end = layout[c[1]]
+            pos = hdr_end + c[2] if c[0] == "h" else hdr_end + (end - hdr_end) * c[2] // 1000
+        if 0 < pos < total:
+            res.add(pos)
+    return sorted(res)
+
+
+def _timed_streams(case):
+    from mpf.core.bcp.bcp_socket_client import encode_command_string
+    res = []
+    for c in case["conns"]:
+        layout, stream = [], b""
+        for m in c["msgs"] + ([c["torn"]] if c["torn"] else []):
+            line = (encode_command_string(m["cmd"], **{k: untag(t) for k, t in m["kw"]}) + "\n").encode()
+            w = wire_stream([m], [line])
+            hdr = len(w) - (len(m["payload"]) if m["payload"] is not None else 0)
+            if m is c["torn"]:
+                keep = 1 + (len(w) - 1) * m["keep1000"] // 1000          # 1 .. len(w)-1: a strict, non-empty prefix
+                keep = max(1, min(keep, len(w) - 1))
+                w = w[:keep]
+            layout.append([len(stream), min(len(stream) + hdr, len(stream) + len(w)), len(stream) + len(w)])
+            stream += w
+        res.append((stream, layout))
+    return res
+
+
+def _run_timed_once(case, zero):
+    server = case["server"]
+    r = None
+    for attempt in range(2):
+        try:
+            r = _timed_rig(server)
+            if _timed_sync(r, server) and r.exception() is None:
+                break
+        except Exception:   # noqa
+            pass
+        old = _TR.pop(server, None)
+        if old is not None:
+            try:
+                old.stop()
+            except Exception:   # noqa
+                pass
+        r = None
+    if r is None:
+        return {"setup_failed": True}
+    streams = _timed_streams(case)
+    st = []
+    for (stream, layout), c in zip(streams, case["conns"]):
+        cuts = _resolve_cuts(layout, c["cuts"], len(stream))
+        st.append({"pending": chunks_of(stream, cuts), "sock": None, "client": None, "ended": False, "arrivals": [],
+                   "end_t": None})
+    out = {"layout": [l for _, l in streams], "streams": [list(s) for s, _ in streams]}
+    log = r._verif_log
+    del log[:]
+    t0 = r.now()
+
+    def t8():
+        return int(round((r.now() - t0) * 8))
+    exc = None
+    ticks = list(case["ticks"])
+    # whatever the generated ticks leave undone is done at the end, one event per tick, 1/8 s apart
+    ticks += [[1, ci] for ci in range(len(st)) for _ in range(len(st[ci]["pending"]) + 1)]
+    try:
+        for gap8, ci in ticks:
+            s = st[ci]
+            if s["ended"] or (not s["pending"] and case["conns"][ci]["end"] == "open"):
+                continue
+            r.advance(0 if zero else gap8 / 8.0)
+            _settle(r)
+            if s["sock"] is None:
+                s["sock"], s["client"] = _open_conn(r, server)
+            if s["pending"]:
+                ch = s["pending"].pop(0)
+                s["arrivals"].append([t8(), len(ch)])
+                s["sock"].recv_queue.append(ch)
+            else:
+                s["ended"] = True
+                s["end_t"] = t8()
+                exc = {"conn": ci}
+                if case["conns"][ci]["end"] == "eof":
+                    s["sock"].recv_queue.append(b"")
+                else:
+                    # what BcpTransportManager.shutdown / send_to_client do with a client they give up
+                    s["client"].stop()
+                    r.machine.bcp.transport.unregister_transport(s["client"])
+            _settle(r)
+            _raise_pending(r)
+            exc = None
+        r.advance(3)
+        _raise_pending(r)
+    except Exception as e:   # noqa  (the rig re-raises what the machine's loop caught)
+        out["exception"] = {"type": type(e).__name__, "text": str(e)[:200], "conn": exc["conn"] if exc else None}
+    byc = {id(s["client"]): ci for ci, s in enumerate(st) if s["client"] is not None}
+    got = [[] for _ in st]
+    stray = []
+    for client, cmd, kw, now in list(log):
+        d = tag_delivered(cmd, kw)
+        d["t8"] = int(round((now - t0) * 8))
+        if id(client) in byc:
+            got[byc[id(client)]].append(d)
+        else:
+            stray.append(d)
+    out["got"] = got
+    out["stray"] = stray
+    out["arrivals"] = [s["arrivals"] for s in st]
+    out["registered_after"] = [s["client"] is not None and s["client"] in r.machine.bcp.transport.get_all_clients()
+                               for s in st]
+    if "exception" not in out:
+        try:
+            out["alive"] = _timed_sync(r, server) and r.exception() is None
+        except Exception as e:   # noqa
+            out["alive"] = False
+            out["exception"] = {"type": type(e).__name__, "text": str(e)[:200], "conn": None}
+    if out.get("exception") or not out.get("alive"):
+        old = _TR.pop(server, None)
+        if old is not None:
+            try:
+                old.stop()
+            except Exception:   # noqa
+                pass
+    return out
+
+
+def run_timed(case):
+    from mpf.core.bcp.bcp_socket_client import MpfJSONEncoder
+    out = {"timed": _run_timed_once(case, False), "zero": _run_timed_once(case, True)}
+
+    def jt(m):
+        return json.dumps({k: untag(t) for k, t in m["kw"]}, cls=MpfJSONEncoder) if is_nested(m["kw"]) else None
+    out["jsontexts"] = [[jt(m) for m in c["msgs"]] for c in case["conns"]]
+    return out
+
+
+def _torn_bytes(case, o, ci):
+    c = case["conns"][ci]
+    if not c["torn"]:
+        return b""
+    lay = o["layout"][ci][-1]
+    return bytes(o["streams"][ci][lay[0]:lay[2]])
+
+
+def _unfixed_sim(case, o, ci):
+    """what the code WITHOUT fixes/C19-torn-frame-at-eof.patch does when the peer disconnects inside a frame: returns
+    None (nothing special), ("deliver", item), ("raise", exception name).  Uses the decoder of the tree under test."""
+    from mpf.core.bcp.bcp_socket_client import decode_command_string
+    c = case["conns"][ci]
+    tb = _torn_bytes(case, o, ci)
+    if c["end"] != "eof" or not tb:
+        return None
+    if b"\n" in tb:
+        return ("raise", "IncompleteReadError")
+    line = tb[:-1]
+    raw = None
+    if b"&bytes=" in line:
+        parts = line.split(b"&bytes=")
+        try:
+            if len(parts) != 2:
+                raise ValueError()
+            n = int(parts[1])
+        except ValueError:
+            return ("raise", "ValueError")
+        if n != 0:
+            return ("raise", "IncompleteReadError" if n > 0 else "ValueError")
+        line = parts[0]
+    try:
+        cmd, kw = decode_command_string(line.decode())
+    except Exception as e:   # noqa
+        return ("raise", type(e).__name__)
+    if cmd in ("hello",):
+        return None
+    if cmd == "goodbye":
+        return None if not kw else ("raise", "TypeError")
+    if cmd not in REGISTERED:
+        return None
+    if not isinstance(kw, dict):
+        return ("raise", "TypeError")
+    return ("deliver", canon_got(tag_delivered(cmd, kw)))
+
+
+def _timed_expect(case, o, ci):
+    """from the messages alone: what the callbacks of connection ci must get, and when (the instant at which the last
+    byte of the frame arrived)"""
+    c = case["conns"][ci]
+    ends, pos = [], 0
+    for t, n in o["arrivals"][ci]:
+        pos += n
+        ends.append((pos, t))
+    exp = []
+    for k, m in enumerate(c["msgs"]):
+        end = o["layout"][ci][k][2]
+        when = next((t for p, t in ends if p >= end), None)
+        if m["cmd"] in REGISTERED and when is not None:
+            exp.append({"cmd": m["cmd"], "kw": [[k2, canon(t)] for k2, t in m["kw"]], "raw": m["payload"] if m["payload"] else None,
+                        "t8": when})
+    return exp
+
+
+def _strip_t(l):
+    return [{k: v for k, v in g.items() if k != "t8"} for g in l]
+
+
+def _eval_timed(case, o, label):
+    """-> (fails, known) for one run"""
+    if o.get("setup_failed"):
+        return [{"sig": "conn-path-dead", "what": "%s: a freshly booted machine does not deliver a BCP command" % label}], False
+    fails = []
+    known = False
+    exc = o.get("exception")
+    for ci, c in enumerate(case["conns"]):
+        exp = _timed_expect(case, o, ci)
+        got = [dict(canon_got(g), t8=g["t8"]) if "notdict" not in g else g for g in o["got"][ci]]
+        if got == exp:
+            continue
+        sim = _unfixed_sim(case, o, ci)
+        if sim and sim[0] == "deliver" and _strip_t(got) == _strip_t(exp) + [sim[1]] and got[:len(exp)] == exp:
+            fails.append({"sig": "torn-line-dispatched",
+                          "what": "%s: the peer disconnected inside a line; the torn line minus its last byte was dispatched: %r"
+                                  % (label, got[-1])})
+            known = True
+            continue
+        if exc and exc.get("conn") is not None and _strip_t(got) == _strip_t(exp)[:len(got)] and got == exp[:len(got)]:
+            continue          # the case was cut short by an exception (judged below); what was delivered until then is right
+        if _strip_t(got) == _strip_t(exp):
+            j = next(j for j in range(len(got)) if got[j] != exp[j])
+            fails.append({"sig": "delivery-instant",
+                          "what": "%s: connection %d: message #%d (%s) was handed over at t=%d/8 s, its last byte arrived at "
+                                  "t=%d/8 s" % (label, ci, j, got[j]["cmd"], got[j]["t8"], exp[j]["t8"])})
+            continue
+        j = next((j for j in range(min(len(got), len(exp))) if _strip_t([got[j]]) != _strip_t([exp[j]])), min(len(got), len(exp)))
+        fails.append({"sig": "timed-delivery",
+                      "what": "%s: connection %d (arrivals [t/8 s, bytes] %r, end %s): callback #%d got %r, the message sent was %r "
+                              "(%d calls for %d complete registered messages)" %
+                              (label, ci, o["arrivals"][ci], c["end"], j, got[j] if j < len(got) else None,
+                               exp[j] if j < len(exp) else None, len(got), len(exp))})
+    if o.get("stray"):
+        fails.append({"sig": "timed-delivery", "what": "%s: callbacks for a client that is none of the connections: %r" %
+                                                       (label, o["stray"][:2])})
+    if exc:
+        sim = _unfixed_sim(case, o, exc["conn"]) if exc.get("conn") is not None else None
+        if sim and sim[0] == "raise" and sim[1] == exc["type"]:
+            sig = "torn-payload-eof-raises" if (sim[1] == "IncompleteReadError") else "torn-line-dispatched"
+            fails.append({"sig": sig, "what": "%s: the peer disconnected inside a frame and %s escaped the receive loop "
+                                              "(MPF stops): %s" % (label, exc["type"], exc["text"])})
+            known = True
+        else:
+            fails.append({"sig": "conn-path-dead", "what": "%s: the machine raised %s: %s" % (label, exc["type"], exc["text"])})
+    elif not o.get("alive"):
+        fails.append({"sig": "conn-path-dead", "what": "%s: after the case a new connection does not deliver a command" % label})
+    else:
+        for ci, c in enumerate(case["conns"]):
+            if c["end"] != "open" and o["registered_after"][ci]:
+                fails.append({"sig": "conn-not-unregistered", "what": "%s: connection %d ended (%s) but its transport is still "
+                                                                      "registered" % (label, ci, c["end"])})
+    return fails, known
+
+
+def oracle_timed(case, out):
+    fa, ka = _eval_timed(case, out["timed"], "generated gaps")
+    fb, kb = _eval_timed(case, out["zero"], "zero gaps")
+    fails = fa + [f for f in fb if f["sig"] not in {x["sig"] for x in fa}]
+    a, b = out["timed"], out["zero"]
+    if not (a.get("setup_failed") or b.get("setup_failed") or a.get("exception") or b.get("exception")):
+        ga = [_strip_t([canon_got(g) for g in l if "notdict" not in g]) for l in a["got"]]
+        gb = [_strip_t([canon_got(g) for g in l if "notdict" not in g]) for l in b["got"]]
+        if ga != gb:
+            ci = next(i for i in range(len(ga)) if ga[i] != gb[i])
+            fails.append({"sig": "time-dependent",
+                          "what": "the same bytes in the same reads deliver different messages depending on WHEN they arrive: "
+                                  "connection %d, arrivals [t/8 s, bytes] %r: %d callbacks %r..., with zero gaps %d callbacks %r..." %
+                                  (ci, a["arrivals"][ci], len(ga[ci]), ga[ci][:2], len(gb[ci]), gb[ci][:2])})
+    return fails
+
+
+def coq_timed(case, out):
+    o = out["timed"]
+    if o.get("setup_failed") or o.get("exception"):
+        return None
+    if any(_eval_timed(case, out[k], k)[1] for k in ("timed", "zero")):
+        return None          # unpatched tree: recorded findings torn-line-dispatched / torn-payload-eof-raises; the model is the FIXED code
+    if any("notdict" in g or any(t[0] == "?" for _, t in g["kw"]) for l in o["got"] for g in l):
+        return None
+    allm = [m for c in case["conns"] for m in c["msgs"]]
+    conns = []
+    res = []
+    for ci, c in enumerate(case["conns"]):
+        arr = o["arrivals"][ci]
+        conns.append("((%s : list smsg), %s, (%s : list Z), (%s : list Z))" %
+                     (coqlist(csmsg(m, j) for m, j in zip(c["msgs"], out["jsontexts"][ci])), zlist(list(_torn_bytes(case, o, ci))),
+                      zlist([n for _, n in arr[:-1]]), zlist([t for t, _ in arr])))
+        res.append("((%s : list (Z * delivered)), %s)" %
+                   (coqlist("(%d, %s)" % (g["t8"], cdelivered(g)) for g in o["got"][ci]), blit(False)))
+    inp = "(%s, (%s : list (list Z)), (%s : list conn_in))" % (okfloats(allm), coqlist(zlist(c.encode()) for c in REGISTERED),
+                                                                coqlist(conns))
+    return "(%s, (%s : list (list (Z * delivered) * bool)))" % (inp, coqlist(res))
+
+
+def shrink_timed(case):
+    cs = case["conns"]
+    if len(cs) > 1:
+        for i in range(len(cs)):
+            yield dict(case, conns=cs[:i] + cs[i + 1:],
+                       ticks=[[g, c - (1 if c > i else 0)] for g, c in case["ticks"] if c != i])
+    for i, c in enumerate(cs):
+        for j in range(len(c["msgs"])):
+            if len(c["msgs"]) > 1 or c["torn"]:
+                yield dict(case, conns=cs[:i] + [dict(c, msgs=c["msgs"][:j] + c["msgs"][j + 1:])] + cs[i + 1:])
+        if c["torn"]:
+            yield dict(case, conns=cs[:i] + [dict(c, torn=None)] + cs[i + 1:])
+        for j in range(len(c["cuts"])):
+            yield dict(case, conns=cs[:i] + [dict(c, cuts=c["cuts"][:j] + c["cuts"][j + 1:])] + cs[i + 1:])
+        for j, m in enumerate(c["msgs"]):
+            if m["kw"]:
+                yield dict(case, conns=cs[:i] + [dict(c, msgs=c["msgs"][:j] + [dict(m, kw=m["kw"][1:])] + c["msgs"][j + 1:])] + cs[i + 1:])
+            if m["payload"] and len(m["payload"]) > 2:
+                yield dict(case, conns=cs[:i] + [dict(c, msgs=c["msgs"][:j] + [dict(m, payload=m["payload"][:2])] + c["msgs"][j + 1:])] + cs[i + 1:])
+    for j, (g, c) in enumerate(case["ticks"]):
+        if g not in (0, 24):
+            yield dict(case, ticks=case["ticks"][:j] + [[0, c]] + case["ticks"][j + 1:])
+            yield dict(case, ticks=case["ticks"][:j] + [[24, c]] + case["ticks"][j + 1:])
+
+
+def nontrivial_timed(case, out):
+    """a frame with payload was incomplete for at least 2 s after its header had arrived, or a connection ended inside a frame"""
+    o = out["timed"]
+    if o.get("setup_failed"):
+        return False
+    for ci, c in enumerate(case["conns"]):
+        if c["torn"] and c["end"] != "open":
+            return True
+        pos, marks = 0, []
+        for t, n in o["arrivals"][ci]:
+            pos += n
+            marks.append((pos, t))
+        for k, m in enumerate(c["msgs"]):
+            if m["payload"]:
+                _, hdr_end, end = o["layout"][ci][k]
+                th = next((t for p, t in marks if p >= hdr_end), None)
+                te = next((t for p, t in marks if p >= end), None)
+                if th is not None and te is not None and te - th >= 16:
+                    return True
+    return False
+
+
+def describe_timed(case):
+    return "%s conns=%d torn=%d" % ("server" if case["server"] else "connect", len(case["conns"]),
+                                    sum(1 for c in case["conns"] if c["torn"]))
+
+
+HDR_TIMED = "From C19 Require Import Model Timed.\nDefinition run := srv_run.\nDefinition out_eqb := srv_out_eqb.\n"
+
+SUITES.append(
+    Suite("timed", gen_timed, run_timed, HDR_TIMED, coq_timed, oracle_timed, shrink_timed, nontrivial_timed,
+          {"quick": 160, "thorough": 5000}, describe=describe_timed, shard=40, case_timeout=120))
+
+
+LEVEL_TEXT = ("Machine-checked proof (Coq, 37 theorems, no axioms) about a byte-level model of the BCP codec, both socket "
               "readers, the senders, the reader-to-handler path and the pickle framing: decode(encode(cmd,kw)) = (cmd,kw) "
               "exactly when (roundtrip_exact) the dictionary is outside two recorded ambiguity classes; for every history "
               "of such messages on one connection, with any payloads and any cutting of the byte stream into reads, "
               "read_message returns and the registered handler / trigger event receives exactly the messages sent, in "
               "order, each with its own parameters and payload (session_roundtrip_partial, handler_receives_sent; guard "
-              "no_marker_keys, refuted without it: recorded finding marker-in-line); json.dumps text is printed by the model "
+              "no_marker_keys, refuted without it: recorded finding marker-in-line); the delivered sequence is independent of the "
+              "instants at which the chunks arrive (reassembly_time_independent: the model has no timer), delivery instants are "
+              "ordered like the arrivals, a frame torn by a disconnect or by MPF dropping the transport delivers nothing and "
+              "every connection starts from the clean framing state (torn_frame_delivers_nothing, "
+              "timed_connection_roundtrip_partial, new_connection_clean; unfixed EOF handling refuted: "
+              "torn_line_unfixed_refuted); json.dumps text is printed by the model "
               "and proved free of raw newlines; the model is tied to /repo by running both on the same generated inputs on "
               "every run, and each property clause is also checked directly on the implementation's output.")
 LEVEL_NOTE = ("Trusted: Coq kernel + vm_compute; no axioms. Model hand-written; correspondence (differential) validates it "
@@ -1697,7 +2218,13 @@ LEVEL_NOTE = ("Trusted: Coq kernel + vm_compute; no axioms. Model hand-written; 
               "read_message is the correspondence run over random splits. Statefulness (a decoder or dispatcher with "
               "memory) cannot be expressed in the model: it is detected by the session/handler correspondence on recurring "
               "lines and by the decode-stateful / delivered-aliased oracles. The pickle transport is modelled as FIXED by "
-              "fixes/C19-pickle-client-loads-dumps.patch; on the unpatched tree it is a recorded finding and not tied.")
+              "fixes/C19-pickle-client-loads-dumps.patch; on the unpatched tree it is a recorded finding and not tied. Time: the "
+              "model ignores instants by construction (that IS the property); its tie to the code is the timed suite, which "
+              "delivers the same reads at generated instants and at zero gaps through the real transport manager and compares "
+              "messages AND delivery instants. Connection independence (new_connection_clean) holds in the model by "
+              "construction (srv_run is a map over connections); the content is in the tie: interleaved connections of one "
+              "machine are compared with it. EOF inside a frame is modelled as FIXED by fixes/C19-torn-frame-at-eof.patch.")
 TECHNIQUE = ("Coq proof over hand-written executable model + differential correspondence (vm_compute) on single messages and on "
-             "whole connection histories + direct round-trip / delivery / statefulness oracles")
+             "whole connection histories, incl. timed arrivals and connection life cycles on the virtual clock + direct round-trip / "
+             "delivery / statefulness / time-independence oracles")
 DESIGN_REF = "DESIGN.md section 3, C19"
